@@ -146,6 +146,30 @@ def tlc_cmd(module, cfg, workers=1, metadir=None, extra=None, java_opts=None, co
     return cmd
 
 
+def _isolated_copy(cwd):
+    """TLC unpacks library modules (Json.tla, ...) into its working directory; concurrent TLC
+    runs in one directory race on those files. Every run therefore gets a private copy of the
+    spec directory (regular files only), removed afterwards."""
+    os.makedirs(WORK, exist_ok=True)
+    d = os.path.join(WORK, "specrun-%d-%d-%d" % (os.getpid(), int(time.time() * 1000) % 10**9, _counter()))
+    os.makedirs(d)
+    for name in os.listdir(cwd):
+        sp = os.path.join(cwd, name)
+        if os.path.isfile(sp) and os.path.getsize(sp) < 20 * 1024 * 1024:
+            shutil.copy(sp, os.path.join(d, name))
+    return d
+
+
+_cnt = [0]
+_cnt_lock = __import__("threading").Lock()
+
+
+def _counter():
+    with _cnt_lock:
+        _cnt[0] += 1
+        return _cnt[0]
+
+
 def parse_tlc(out, res):
     for m in _RE_STATES.finditer(out):
         res.generated = int(m.group(1).replace(",", ""))
@@ -185,12 +209,12 @@ def parse_tlc(out, res):
 
 def run_tlc(module, cfg, cwd=SPEC, workers=1, timeout=600, env=None, extra=None, heap="4g",
             stack=None, coverage=False, deque=False, metadir=None, simulate=None, depth=None,
-            deadlock=False, save_out=None):
+            deadlock=False, save_out=None, isolate=True):
     """Run TLC to completion and parse its output. `module`/`cfg` relative to cwd.
     Raises ToolError on time-out or TLC crash (but a violated invariant/property or an
     evaluation error is returned as a result, never raised)."""
     os.makedirs(WORK, exist_ok=True)
-    md = metadir or os.path.join(WORK, "tlc-%d-%d" % (os.getpid(), int(time.time() * 1000) % 10**9))
+    md = metadir or os.path.join(WORK, "tlc-%d-%d-%d" % (os.getpid(), int(time.time() * 1000) % 10**9, _counter()))
     jopts = ["-Xmx" + heap]
     if stack:
         jopts.append("-Xss" + stack)
@@ -204,14 +228,20 @@ def run_tlc(module, cfg, cwd=SPEC, workers=1, timeout=600, env=None, extra=None,
         e.update(env)
     res = TlcResult()
     t0 = time.time()
+    cfg_abs = cfg if os.path.isabs(cfg) else os.path.join(cwd, cfg)
+    rundir = _isolated_copy(cwd) if isolate else cwd
+    if isolate:
+        cmd[cmd.index("-config") + 1] = cfg_abs
     try:
-        r = subprocess.run(cmd, cwd=cwd, env=e, stdout=subprocess.PIPE, stderr=subprocess.STDOUT,
+        r = subprocess.run(cmd, cwd=rundir, env=e, stdout=subprocess.PIPE, stderr=subprocess.STDOUT,
                            text=True, timeout=timeout)
     except subprocess.TimeoutExpired:
         shutil.rmtree(md, ignore_errors=True)
         raise ToolError("TLC timed out after %ds: %s %s" % (timeout, module, cfg))
     finally:
         shutil.rmtree(md, ignore_errors=True)
+        if isolate:
+            shutil.rmtree(rundir, ignore_errors=True)
     res.wall_s = time.time() - t0
     res.rc = r.returncode
     res.out = r.stdout
@@ -225,12 +255,12 @@ def run_tlc(module, cfg, cwd=SPEC, workers=1, timeout=600, env=None, extra=None,
 
 
 def tlc_pipe(module, cfg, consumer_cmd, cwd=SPEC, timeout=900, env=None, heap="4g", stack=None,
-             workers=1, extra=None, consumer_cwd=None):
+             workers=1, extra=None, consumer_cwd=None, isolate=True):
     """tlc ... | consumer  (nothing is written to disk). Returns (TlcResult with the
     *tail* of TLC's non-export output, consumer return code, consumer stdout).
     The consumer reads TLC's stdout (PrintT lines interleaved with TLC's own messages)."""
     os.makedirs(WORK, exist_ok=True)
-    md = os.path.join(WORK, "tlc-%d-%d" % (os.getpid(), int(time.time() * 1000) % 10**9))
+    md = os.path.join(WORK, "tlc-%d-%d-%d" % (os.getpid(), int(time.time() * 1000) % 10**9, _counter()))
     jopts = ["-Xmx" + heap]
     if stack:
         jopts.append("-Xss" + stack)
@@ -240,7 +270,11 @@ def tlc_pipe(module, cfg, consumer_cmd, cwd=SPEC, timeout=900, env=None, heap="4
     if env:
         e.update(env)
     t0 = time.time()
-    p1 = subprocess.Popen(cmd, cwd=cwd, env=e, stdout=subprocess.PIPE, stderr=subprocess.STDOUT)
+    cfg_abs = cfg if os.path.isabs(cfg) else os.path.join(cwd, cfg)
+    rundir = _isolated_copy(cwd) if isolate else cwd
+    if isolate:
+        cmd[cmd.index("-config") + 1] = cfg_abs
+    p1 = subprocess.Popen(cmd, cwd=rundir, env=e, stdout=subprocess.PIPE, stderr=subprocess.STDOUT)
     p2 = subprocess.Popen(consumer_cmd, cwd=consumer_cwd or VERIF, stdin=p1.stdout, stdout=subprocess.PIPE,
                           text=True, env=e)
     p1.stdout.close()
@@ -254,6 +288,8 @@ def tlc_pipe(module, cfg, consumer_cmd, cwd=SPEC, timeout=900, env=None, heap="4
         raise ToolError("TLC export pipe timed out after %ds: %s %s" % (timeout, module, cfg))
     finally:
         shutil.rmtree(md, ignore_errors=True)
+        if isolate:
+            shutil.rmtree(rundir, ignore_errors=True)
     res = TlcResult()
     res.rc = p1.returncode
     res.wall_s = time.time() - t0
